@@ -60,6 +60,11 @@ def run_property(prop: str, repo: str, tier: str, only=None, evidence_dir=None, 
             extra = {"thorough_error": f"{type(e).__name__}: {e}"}
     if tier == "thorough":
         try:
+            from checks import generic
+            extra["repo_wide_generic_rules"] = generic.sweep(prog)
+        except Exception as e:
+            extra["repo_wide_generic_rules"] = {"error": f"{type(e).__name__}: {e}"}
+        try:
             from selftest import runner
             extra["selftest"] = runner.run_for(prop, repo)
         except Exception as e:
